@@ -6,6 +6,7 @@ import Momo.Proof.PoolSingleMerge
 import Momo.Proof.PoolWorld
 import Momo.Proof.PoolDllWalk
 import Momo.Proof.PoolU32Ops
+import Momo.Proof.TrEqWave2Pool
 /-!
 # C09 — Memory pool blocks are aligned, disjoint, inside owned memory, and all returned
 
@@ -770,5 +771,104 @@ def exU : Option ((Nat × Nat × List Int) × Option (List Nat) × List Ev) :=
   | _ => none
 example : exU = some ((0, 1, [1000]), some [1, 2, 3], [.malloc 9000 32, .malloc 1000 48]) := by decide
 example : (mkCfg 3 1 100).S = 4 ∧ realPtr exC ⟨[1000, 2000], 4, 9000, 0, fun _ => none, 0⟩ 6 = some 2024 := by decide
+
+/-! ### `MemPoolUInt32`: the code itself (T1b, area Wave2; proofs in Proof/TrEqWave2Pool.lean) -/
+
+/-- **C09 (`MemPoolUInt32`, parameters from the header text).** The configuration the real constructor computes
+(`mMaxBufferCount(maxTotalBlockCount / blockCount)`, `mBlockSize(std::minmax(blockSize, sizeof(uint32_t)).second)`, translated
+from MemPool.h) is the model's `mkCfg`, it is legal under the constructor's assertions, and when the constructor's
+`if (mBlockSize > UIntConst::maxSize / blockCount) throw` did not fire the translated `pvGetBufferSize()` is the model's buffer
+size without 64-bit wrap. -/
+theorem C09_u32_params_translated (blockCount blockSize maxTotal : Nat) (hN : 0 < blockCount) (hT : maxTotal < nullPtr)
+    (hok : Tr.pool32_blockSizeTooBig blockCount (Tr.pool32_blockSize blockSize) = false) :
+    (⟨blockCount, Tr.pool32_blockSize blockSize, Tr.pool32_maxBufferCount blockCount maxTotal⟩ : Cfg)
+      = mkCfg blockCount blockSize maxTotal ∧
+    (mkCfg blockCount blockSize maxTotal).Legal ∧
+    Tr.pool32_pvGetBufferSize blockCount (Tr.pool32_blockSize blockSize) = (mkCfg blockCount blockSize maxTotal).bufferSize := by
+  have h := TrEq.tr_pool32_mkCfg blockCount blockSize maxTotal
+  refine ⟨h, mkCfg_legal blockCount blockSize maxTotal hN hT, ?_⟩
+  have hS : (mkCfg blockCount blockSize maxTotal).S = Tr.pool32_blockSize blockSize := by rw [← h]
+  have hNN : (mkCfg blockCount blockSize maxTotal).N = blockCount := rfl
+  have := TrEq.tr_pool32_bufferSize (mkCfg blockCount blockSize maxTotal)
+    (TrEq.tr_pool32_sizeFits _ (by rw [hS, hNN]; exact hok))
+  rw [hS, hNN] at this
+  exact this
+
+/-- **C09 (`MemPoolUInt32`, `GetRealPointer` from the header text).** With buffers that lie inside the 64-bit address space and
+do not overlap (`mb k` = the address stored in `mBuffers[k]`), the address the translated `GetRealPointer` computes for every
+index inside the buffers — `mBuffers[block / blockCount] + (block % blockCount) * mBlockSize` in `size_t` arithmetic — is the
+model's real pointer, the block lies inside one of the buffers, and the blocks of two different indices do not overlap. -/
+theorem C09_u32_geometry_translated (C : Cfg) (hC : C.Legal) (st : State) (mb : Nat → Nat)
+    (hmb : ∀ k (b : Int), st.bufs[k]? = some b → 0 ≤ b ∧ b + C.bufferSize ≤ 2 ^ 64 ∧ mb k = b.toNat)
+    (hd : st.bufs.Pairwise (fun a b => Disj a C.bufferSize b C.bufferSize)) :
+    (∀ i, i < st.bufs.length * C.N →
+      realPtr C st i = some ((Tr.pool32_GetRealPointer C.N C.S mb i : Nat) : Int) ∧
+      ∃ b ∈ st.bufs, Inside ((Tr.pool32_GetRealPointer C.N C.S mb i : Nat) : Int) C.S b (b + C.bufferSize)) ∧
+    (∀ i j, i < st.bufs.length * C.N → j < st.bufs.length * C.N → i ≠ j →
+      Disj ((Tr.pool32_GetRealPointer C.N C.S mb i : Nat) : Int) C.S ((Tr.pool32_GetRealPointer C.N C.S mb j : Nat) : Int) C.S) := by
+  obtain ⟨_, _, h3, h4, _⟩ := C09_u32_geometry C hC st hd
+  have key : ∀ i, i < st.bufs.length * C.N →
+      realPtr C st i = some ((Tr.pool32_GetRealPointer C.N C.S mb i : Nat) : Int) ∧
+      rp C st i = ((Tr.pool32_GetRealPointer C.N C.S mb i : Nat) : Int) := by
+    intro i hi
+    obtain ⟨b, _, hg, _, _⟩ := h3 i hi
+    obtain ⟨h0, hfit, hm⟩ := hmb _ b hg
+    have := TrEq.tr_pool32_realPtr C hC st mb i b hg h0 hfit hm
+    exact ⟨this, by unfold rp; rw [this]; rfl⟩
+  refine ⟨fun i hi => ⟨(key i hi).1, ?_⟩, fun i j hi hj hij => ?_⟩
+  · obtain ⟨b, hb, _, _, hin⟩ := h3 i hi
+    exact ⟨b, hb, by rw [← (key i hi).2]; exact hin⟩
+  · rw [← (key i hi).2, ← (key j hj).2]
+    exact h4 i j hi hj hij
+
+/-- **C09 (`MemPoolUInt32`, `pvNewBuffer` / `Deallocate` from the header text).** The model's `newBuffer` is the real
+`pvNewBuffer` with the translated limit test and `Reserve` argument; on an answer `base` of the manager that lies inside the
+address space its second half links the new buffer by writing, for every block `i`, the translated link word
+(`static_cast<uint32_t>(bufferCount * blockCount + i + 1)` or `nullPtr`) at the translated address `buffer + mBlockSize * i`,
+sets the translated head and asks for the translated `pvGetBufferSize()` bytes; `Deallocate` gives everything back exactly
+when the translated `mAllocCount == 0 && mBuffers.GetCount() > 2` holds after the decrement. -/
+theorem C09_u32_newBuffer_translated (C : Cfg) (hC : C.Legal) (st : State) (orc : Oracle)
+    (hlen : st.bufs.length < C.maxBuf) (hfitS : C.N * C.S < 2 ^ 64) :
+    (newBuffer C st orc =
+      if Tr.pool32_newBuffer_limit st.bufs.length C.maxBuf = true then .lengthError st
+      else if Tr.pool32_newBuffer_reserve st.bufs.length > st.arrCap then
+        match orc 0 with
+        | none => .badAlloc st []
+        | some a =>
+          addBuffer C { st with arrCap := Arr.growCapacity true st.arrCap (Tr.pool32_newBuffer_reserve st.bufs.length) true false,
+                                arrAddr := a }
+            (orc 1)
+            ([.malloc a ((Arr.growCapacity true st.arrCap (Tr.pool32_newBuffer_reserve st.bufs.length) true false * sizeofPtr : Nat) : Int)] ++
+              (if st.arrCap > 0 then [.free st.arrAddr ((st.arrCap * sizeofPtr : Nat) : Int)] else []))
+      else addBuffer C st (orc 0) []) ∧
+    (∀ (base : Int) (evs : List Ev), 0 ≤ base → base + C.bufferSize ≤ 2 ^ 64 →
+      addBuffer C st (some base) evs =
+        .ok () { st with bufs := st.bufs ++ [base], head := Tr.pool32_newBuffer_head C.N st.bufs.length,
+                         mem := (List.range C.N).foldl (fun m i =>
+                           setW m ((Tr.pool32_newBuffer_linkAddr C.S base.toNat i : Nat) : Int)
+                             (some (Tr.pool32_newBuffer_nextBlock C.N st.bufs.length i))) st.mem }
+          (evs ++ [.malloc base (Tr.pool32_pvGetBufferSize C.N C.S)])) ∧
+    ((Tr.pool32_dealloc_clears (st.allocCount - 1) st.bufs.length = true) ↔ (st.allocCount - 1 = 0 ∧ st.bufs.length > 2)) := by
+  have hmax := hC.hMax
+  simp only [nullPtr] at hmax
+  have hle : (st.bufs.length + 1) * C.N ≤ C.maxBuf * C.N := Nat.mul_le_mul_right _ hlen
+  rw [Nat.add_mul, Nat.one_mul] at hle
+  have hlen2 : st.bufs.length ≤ st.bufs.length * C.N := Nat.le_mul_of_pos_right _ hC.hN
+  refine ⟨?_, ?_, TrEq.tr_pool32_dealloc_clears _ _⟩
+  · have hr := TrEq.tr_pool32_newBuffer_reserve st.bufs.length (by omega)
+    have hl : ¬ (Tr.pool32_newBuffer_limit st.bufs.length C.maxBuf = true) := by
+      rw [TrEq.tr_pool32_newBuffer_limit]; omega
+    rw [if_neg hl, hr]
+    unfold newBuffer
+    rw [if_neg (by omega)]
+    rfl
+  · intro base evs h0 hfit
+    simp only [addBuffer]
+    rw [TrEq.initLinks_translated C hC st.bufs.length base h0 hfit (by omega) (List.range C.N) st.mem
+          (fun i hi => List.mem_range.mp hi),
+      TrEq.tr_pool32_head C.N st.bufs.length (by omega), TrEq.tr_pool32_bufferSize C hfitS]
+
+example : Tr.pool32_GetRealPointer 4 12 (fun k => if k = 0 then 1000 else 2000) 6 = 2024
+    ∧ Tr.pool32_newBuffer_nextBlock 4 1 2 = 7 ∧ Tr.pool32_newBuffer_nextBlock 4 1 3 = nullPtr ∧ Tr.pool32_blockSize 1 = 4 := by decide
 
 end Momo.PoolU32
